@@ -244,6 +244,7 @@ def run_int_cfg(
     raises_at: Callable[[Node, int], Optional[ast.expr]],
     max_steps: int = 300,
     decide: Optional[Callable[[ast.expr], Optional[bool]]] = None,
+    atoms_extra: Optional[Callable[[ast.AST], Optional[Any]]] = None,
 ) -> Run:
     """
     Deterministic walk of *fn*'s CFG with a concrete integer state.
@@ -266,6 +267,8 @@ def run_int_cfg(
     def atoms(expr: ast.AST):
         if isinstance(expr, ast.Name) and expr.id in state:
             return state[expr.id]
+        if atoms_extra is not None:
+            return atoms_extra(expr)
         return None
 
     for _ in range(max_steps):
